@@ -98,7 +98,7 @@ def run(chk, variant="std"):
         c["seed"] = vlib.seed() * 1000 + k
         c["perturb"] = 1
         c["trace"] = os.path.join(tdir, "t%05d.ndjson" % k)
-    res = vlib.run_cases(binary, cases, tmo=30, shards=8, env={"TSAN_OPTIONS": "halt_on_error=1 exitcode=66"})
+    res = vlib.run_cases(binary, cases, tmo=30, shards=8, max_abnormal=6, env={"TSAN_OPTIONS": "halt_on_error=1 exitcode=66"})
     todo = []
     nmulti = 0
     for k, (c, rr) in enumerate(zip(cases, res)):
